@@ -1,0 +1,30 @@
+//go:build verif
+// +build verif
+
+package bal_gslb
+
+import (
+	"github.com/bfenetworks/bfe/bfe_balance/bal_slb"
+	"github.com/bfenetworks/bfe/bfe_basic"
+)
+
+// Hooks for the out-of-tree verification harness of property C02 (build tag verif).  Add-only.
+
+// VerifC02HashKey exposes getHashKey.
+func (bal *BalanceGslb) VerifC02HashKey(req *bfe_basic.Request) []byte {
+	bal.lock.Lock()
+	defer bal.lock.Unlock()
+	return bal.getHashKey(req)
+}
+
+// VerifC02SubRR returns the BalanceRR of the named sub-cluster (nil if absent).
+func (bal *BalanceGslb) VerifC02SubRR(name string) *bal_slb.BalanceRR {
+	bal.lock.Lock()
+	defer bal.lock.Unlock()
+	for _, s := range bal.subClusters {
+		if s.Name == name {
+			return s.backends
+		}
+	}
+	return nil
+}
